@@ -50,7 +50,7 @@ func main() {
 
 func cases(tier string) int {
 	if tier == "thorough" {
-		return 30000
+		return 150000
 	}
 	return 6000
 }
